@@ -54,22 +54,34 @@ type zzWireStore struct {
 	tail, head int
 	rangeCalls [][2]uint64
 	getCalls   [][]byte
+	noDeadline int
 }
 
-func (s *zzWireStore) Head(context.Context, ...header.HeadOption[*zh.Hdr]) (*zh.Hdr, error) {
+// every store access of a request must run under the request's timeout (the server "never hangs beyond its timeouts")
+func (s *zzWireStore) see(ctx context.Context) {
+	if _, ok := ctx.Deadline(); !ok {
+		s.noDeadline++
+	}
+}
+
+func (s *zzWireStore) Head(ctx context.Context, _ ...header.HeadOption[*zh.Hdr]) (*zh.Hdr, error) {
+	s.see(ctx)
 	return s.chain[s.head-1], nil
 }
-func (s *zzWireStore) HasAt(_ context.Context, h uint64) bool {
+func (s *zzWireStore) HasAt(ctx context.Context, h uint64) bool {
+	s.see(ctx)
 	return int(h) >= s.tail && int(h) <= s.head
 }
-func (s *zzWireStore) GetRange(_ context.Context, from, to uint64) ([]*zh.Hdr, error) {
+func (s *zzWireStore) GetRange(ctx context.Context, from, to uint64) ([]*zh.Hdr, error) {
+	s.see(ctx)
 	s.rangeCalls = append(s.rangeCalls, [2]uint64{from, to})
 	if from >= to || int(from) < s.tail || int(to-1) > s.head {
 		return nil, header.ErrNotFound
 	}
 	return s.chain[from-1 : to-1], nil
 }
-func (s *zzWireStore) Get(_ context.Context, hash header.Hash) (*zh.Hdr, error) {
+func (s *zzWireStore) Get(ctx context.Context, hash header.Hash) (*zh.Hdr, error) {
+	s.see(ctx)
 	s.getCalls = append(s.getCalls, hash)
 	for i := s.tail; i <= s.head; i++ {
 		if bytes.Equal(s.chain[i-1].Hash(), hash) {
@@ -139,6 +151,7 @@ func ZzC10Wire() {
 	}
 	zz.Observe("responses", uint64(len(resps)))
 	zz.ObserveBool("reset", stream.reset)
+	zz.Assert(st.noDeadline == 0, "every store access of a request runs under the request timeout")
 	zz.Assert(len(st.rangeCalls) <= 1, "at most one range read per request")
 	for _, c := range st.rangeCalls {
 		zz.Assert(c[1]-c[0] <= header.MaxRangeRequestSize && c[1] > c[0], "never more than MaxRangeRequestSize headers are read")
